@@ -14,7 +14,7 @@ from fractions import Fraction
 
 from ..callgraph import get_resolver
 from ..degree import DegreeAnalysis, T, INT, ZERO, ONE, HALF, lfmt
-from ..index import get_index, norm, calls_in
+from ..index import get_index, norm, calls_in, dotted
 from ..report import Context, AnalysisError
 from .C14 import report_issues
 
@@ -165,29 +165,75 @@ def clause_b(ctx: Context, idx) -> None:
                     and "density_matrix" in norm(node.args[2]):
                 spec = node.args[0].value.replace(" ", "")
                 A, B = node.args[1], node.args[3]
-                # same base object on both sides (indexed by ket / bra), right one conjugate-transposed
-                def base(e):
-                    t = norm(e)
-                    for suf in (".T.conj()", ".conj().T", ".T", ".conj()", ".transpose()"):
-                        t = t.replace(suf, "")
-                    return t.split("[")[0].replace("_bra", "").replace("_ket", "")
-                conj_t = any(x in norm(B) for x in (".T.conj()", ".conj().T"))
-                tB = norm(B)
-                for suf in (".T.conj()", ".conj().T"):
-                    tB = tB.replace(suf, "")
-                roles = "ket" in norm(A) and "bra" in tB and norm(A).replace("ket", "#") == tB.replace("bra", "#")
-                ok = spec == "ij,jk,kl->il" and base(A) == base(B) and conj_t and roles and not any(x in norm(A) for x in (".T", ".conj()"))
+                # name-agnostic: K and K^dagger are the same object (after following local definitions) selected by the loop of the
+                # ket side resp. the bra side; the block of rho is addressed by rows of the ket loop and columns of the bra loop
+                fdefs = {}
+                loopvars = {}  # loop variable -> id of its for statement
+                for x in ast.walk(fn.node):
+                    if isinstance(x, ast.Assign) and len(x.targets) == 1 and isinstance(x.targets[0], ast.Name):
+                        fdefs.setdefault(x.targets[0].id, []).append(x.value)
+                    if isinstance(x, ast.For):
+                        for t in ast.walk(x.target):
+                            if isinstance(t, ast.Name):
+                                loopvars[t.id] = id(x)
+
+                def strip_adj(e):
+                    """(expr without a trailing conjugate-transpose, was it conjugate-transposed?)"""
+                    t = norm(e).replace(" ", "")
+                    for suf in (".T.conj()", ".conj().T", ".T.conjugate()", ".conjugate().T"):
+                        if t.endswith(suf):
+                            return ast.parse(t[: -len(suf)], mode="eval").body, True
+                    return e, False
+
+                def base_of(e, depth=0):
+                    while isinstance(e, ast.Subscript):
+                        e = e.value
+                    if isinstance(e, ast.Name) and e.id in fdefs and len(fdefs[e.id]) == 1 and depth < 4:
+                        return base_of(fdefs[e.id][0], depth + 1)
+                    return norm(e)
+
+                def loops_of(e, depth=0, seen=None):
+                    seen = seen if seen is not None else set()
+                    out = set()
+                    for nm in ast.walk(e):
+                        if isinstance(nm, ast.Name):
+                            if nm.id in loopvars:
+                                out.add(loopvars[nm.id])
+                            if nm.id in fdefs and nm.id not in seen and depth < 5:
+                                seen.add(nm.id)
+                                for d_ in fdefs[nm.id]:
+                                    out |= loops_of(d_, depth + 1, seen)
+                    return out
+
+                B0, conj_t = strip_adj(B)
+                A0, a_adj = strip_adj(A)
+                same_base = base_of(A0) == base_of(B0) and not a_adj and not any(x in norm(A) for x in (".T", ".conj()"))
+                rho = node.args[2]
+                roles = True
+                if isinstance(rho, ast.Subscript) and isinstance(rho.slice, ast.Name) and rho.slice.id in fdefs:
+                    ixs = [d_ for d_ in fdefs[rho.slice.id] if isinstance(d_, ast.Call) and norm(d_.func).split(".")[-1] == "ix_" and len(d_.args) == 2]
+                    if ixs:
+                        r_, c_ = ixs[0].args
+                        la, lb, lr, lc = loops_of(A0), loops_of(B0), loops_of(r_), loops_of(c_)
+                        # the left factor belongs to the loop that addresses the rows, the right factor to the one that addresses the columns
+                        roles = bool(la & lr) and bool(lb & lc) and not ((la - lb) & lc) and not ((lb - la) & lr)
+                ok = spec == "ij,jk,kl->il" and same_base and conj_t and roles
                 site(fn, node, "congruence-einsum", ok, f"`{norm(node)[:80]}` does not contract K rho K^dagger with the same K on both sides")
             # (iii) elementwise factor
-            if isinstance(node, ast.Assign) and len(node.targets) == 1 and isinstance(node.targets[0], ast.Name) and node.targets[0].id == "coefficient" \
-                    and isinstance(node.value, ast.Call) and norm(node.value.func).split(".")[-1] == "exp" \
-                    and any("dual_basis" in norm(x) for x in ast.walk(fn.node) if isinstance(x, ast.For)):
+            pair = None
+            for x in ast.walk(fn.node):
+                if isinstance(x, ast.For) and isinstance(x.iter, ast.Call) and norm(x.iter.func).split(".")[-1] == "operator_basis" \
+                        and isinstance(x.target, ast.Tuple) and len(x.target.elts) == 2 and isinstance(x.target.elts[1], ast.Tuple) \
+                        and len(x.target.elts[1].elts) == 2 and all(isinstance(y, ast.Name) for y in x.target.elts[1].elts):
+                    pair = tuple(y.id for y in x.target.elts[1].elts)  # (ket basis, bra basis)
+            if isinstance(node, ast.Assign) and len(node.targets) == 1 and isinstance(node.targets[0], ast.Name) \
+                    and isinstance(node.value, ast.Call) and norm(node.value.func).split(".")[-1] == "exp" and pair is not None:
                 arg = node.value.args[0]
                 syms = {}
                 local_defs = {}
                 for a_ in ast.walk(fn.node):
                     if isinstance(a_, ast.Assign) and len(a_.targets) == 1 and isinstance(a_.targets[0], ast.Name) and isinstance(a_.value, ast.Subscript) \
-                            and norm(a_.value.value) in ("basis", "dual_basis"):
+                            and norm(a_.value.value) in pair:
                         local_defs[a_.targets[0].id] = a_.value
                 def tr(e, swap):
                     if isinstance(e, ast.Constant):
@@ -197,9 +243,13 @@ def clause_b(ctx: Context, idx) -> None:
                     if isinstance(e, ast.Name):
                         return syms.setdefault(e.id, sp.Symbol(e.id, real=True))
                     if isinstance(e, ast.Subscript):
+                        # canonical text: the ket basis is KET, the bra basis is BRA, whatever the loop variables are called
+                        import re as _re
                         t = norm(e)
+                        t = _re.sub(r"\b%s\b" % _re.escape(pair[0]), "\0K", t)
+                        t = _re.sub(r"\b%s\b" % _re.escape(pair[1]), "BRA", t).replace("\0K", "KET")
                         if swap:
-                            t = t.replace("dual_basis", "\0").replace("basis", "dual_basis").replace("\0", "basis")
+                            t = t.replace("KET", "\0").replace("BRA", "KET").replace("\0", "BRA")
                         return syms.setdefault(t, sp.Symbol(t.replace("[", "_").replace("]", "").replace(" ", ""), real=True))
                     if isinstance(e, ast.BinOp):
                         a, b = tr(e.left, swap), tr(e.right, swap)
@@ -217,7 +267,8 @@ def clause_b(ctx: Context, idx) -> None:
                 site(fn, node, "phase-factor-antisymmetric", ok,
                      f"the elementwise factor exp({norm(arg)[:60]}) is not of the form exp(i (g(ket) - g(bra))) (its conjugate is not its value at the swapped pair)")
             # (iv) mirror fill
-            if isinstance(node, ast.Assign) and isinstance(node.targets[0], ast.Subscript) and "new_density_matrix" in norm(node.targets[0]) \
+            if isinstance(node, ast.Assign) and isinstance(node.targets[0], ast.Subscript) and isinstance(node.targets[0].value, ast.Name) \
+                    and node.targets[0].value.id in {r_.value.id for r_ in ast.walk(fn.node) if isinstance(r_, ast.Return) and isinstance(r_.value, ast.Name)} \
                     and isinstance(node.value, ast.Attribute) and node.value.attr == "T" and "conj" in norm(node.value):
                 site(fn, node, "mirror-fill-conjugate-transpose", True)
     # the attenuator: weights symmetric under n <-> m
@@ -225,26 +276,56 @@ def clause_b(ctx: Context, idx) -> None:
     att = fs.functions.get("attenuator")
     if att is None:
         raise AnalysisError("anchor vanished: fock attenuator step")
-    upd = [x for x in ast.walk(att.node) if isinstance(x, ast.AugAssign) and "new_density_matrix" in norm(x.target)]
-    common = [x for x in ast.walk(att.node) if isinstance(x, ast.Assign) and norm(x.targets[0]) == "common_term"]
-    if len(upd) != 1 or len(common) != 1:
-        raise AnalysisError("C08b: the attenuator no longer has one `new_density_matrix[...] += common_term * (...)` update (undecided)")
+    # roles are read from definitions, not from the names of the locals
+    stored = [x.value.id for x in ast.walk(att.node) if isinstance(x, ast.Assign) and len(x.targets) == 1 and isinstance(x.targets[0], ast.Attribute)
+              and x.targets[0].attr == "_density_matrix" and isinstance(x.value, ast.Name)]
+    upd = [x for x in ast.walk(att.node) if isinstance(x, ast.AugAssign) and isinstance(x.target, ast.Subscript)
+           and isinstance(x.target.value, ast.Name) and x.target.value.id in stored]
+    if len(upd) != 1:
+        raise AnalysisError("C08b: the attenuator no longer has one `<new density matrix>[...] += weight` update (undecided)")
+    defs = {}
+    for x in ast.walk(att.node):
+        if isinstance(x, ast.Assign) and len(x.targets) == 1 and isinstance(x.targets[0], ast.Name):
+            defs[x.targets[0].id] = x.value
+    pair_var = k_var = None
+    for x in ast.walk(att.node):
+        if isinstance(x, ast.For) and isinstance(x.iter, ast.Call) and (dotted(x.iter.func) or "").split(".")[-1] == "operator_basis" \
+                and isinstance(x.target, ast.Tuple) and len(x.target.elts) == 2 and isinstance(x.target.elts[1], ast.Name):
+            pair_var = x.target.elts[1].id
+        if isinstance(x, ast.For) and isinstance(x.target, ast.Name) and isinstance(x.iter, ast.Call) and dotted(x.iter.func) == "range" \
+                and any(isinstance(y, ast.Call) and dotted(y.func) == "min" for y in ast.walk(x.iter)):
+            k_var = x.target.id
     n_, m_, k_, th = sp.Symbol("n", integer=True, nonnegative=True), sp.Symbol("m", integer=True, nonnegative=True), sp.Symbol("k", integer=True, nonnegative=True), sp.Symbol("theta", real=True)
 
-    def w(e, swap):
+    def side_of(e, depth=0):
+        """0 (ket) / 1 (bra) when e denotes an occupation number of the ket / bra of the operator-basis pair."""
+        while isinstance(e, ast.Call) and (dotted(e.func) or "").split(".")[-1] in ("copy", "array", "asarray") and e.args:
+            e = e.args[0]
+        if isinstance(e, ast.Subscript):
+            b = e.value
+            if isinstance(b, ast.Name) and b.id == pair_var and isinstance(e.slice, ast.Constant) and e.slice.value in (0, 1):
+                return e.slice.value
+            return side_of(b, depth)
+        if isinstance(e, ast.Name) and e.id in defs and depth < 5:
+            return side_of(defs[e.id], depth + 1)
+        return None
+
+    def w(e, swap, depth=0):
         if isinstance(e, ast.Constant):
             return sp.sympify(e.value)
         if isinstance(e, ast.Name):
-            if e.id in ("n", "m"):
-                return {("n", False): n_, ("m", False): m_, ("n", True): m_, ("m", True): n_}[(e.id, swap)]
-            if e.id == "k":
+            if e.id == k_var:
                 return k_
-            if e.id == "theta":
-                return th
-            if e.id == "coefficient":
-                return sp.Integer(1)
-            if e.id == "common_term":
-                return w(common[0].value, swap)
+            d_ = defs.get(e.id)
+            if d_ is not None and depth < 8:
+                if isinstance(d_, ast.Subscript) and isinstance(d_.slice, ast.Constant) and d_.slice.value == "theta":
+                    return th
+                if isinstance(d_, ast.Subscript) and isinstance(d_.value, ast.Attribute) and d_.value.attr == "_density_matrix":
+                    return sp.Integer(1)
+                sd = side_of(d_)
+                if sd is not None:
+                    return (m_ if sd == 0 else n_) if swap else (n_ if sd == 0 else m_)
+                return w(d_, swap, depth + 1)
             raise AnalysisError(f"C08b: free name `{e.id}` in the attenuator weight (undecided)")
         if isinstance(e, ast.BinOp):
             a, b = w(e.left, swap), w(e.right, swap)
